@@ -125,7 +125,7 @@ void vrt_lin_assert(const struct vrt_lin_spec *spec, const char *what)
 }
 
 /* ---- notebook: harness bookkeeping that must stay invisible to the memory model -------------- */
-static unsigned long notes[256];
-void vrt_note_set(int i, unsigned long v) { notes[i & 255] = v; }
-unsigned long vrt_note_get(int i) { return notes[i & 255]; }
-unsigned long vrt_note_inc(int i) { return notes[i & 255]++; }
+static unsigned long notes[1024];
+void vrt_note_set(int i, unsigned long v) { notes[i & 1023] = v; }
+unsigned long vrt_note_get(int i) { return notes[i & 1023]; }
+unsigned long vrt_note_inc(int i) { return notes[i & 1023]++; }
